@@ -143,6 +143,68 @@ def ob_abandon(pulls: int, pos0: int, pk: int) -> bool:
         return H.verdict(not probs)
 
 
+def ob_leave_with(pulls: int, pos0: int, pk: int) -> bool:
+    """
+    pre: 0 <= pulls <= 3
+    pre: -1 <= pos0 <= 600
+    pre: 0 <= pk <= 1
+    post: _
+    """
+    H.enter()
+    # `with Parallel(return_as=generator) as p:` is left while the generator is still referenced and unexhausted:
+    # the run is unfinished, so calling p again must raise RuntimeError instead of mixing the two runs; after the
+    # generator is closed the object is reusable.
+    steps = _BASE["steps"]
+    H.assume(pos0 <= steps)
+    pl, p0, pkv = [0, 1, 2, 4][H.select(pulls, 0, 3)], H.select_bisect(pos0, -1, steps), H.select(pk, 0, 1)
+    ordered = H.P("return_as") == "generator"
+    with H.native():
+        seen = {}
+
+        def script(sim, p, out, mk):
+            with p:
+                g1 = p(mk(0, 6))
+                it = iter(g1)
+                seen["got"] = [next(it) for _ in range(pl)]
+            try:
+                g2 = p(mk(1, 3))
+                seen["second"] = "accepted"
+                try:
+                    seen["second_results"] = list(g2)
+                except BaseException as e:
+                    seen["second_results"] = "raised %s" % type(e).__name__
+            except RuntimeError:
+                seen["second"] = "RuntimeError"
+            try:
+                seen["rest"] = list(it)
+            except BaseException as e:
+                seen["rest"] = "raised %s: %s" % (type(e).__name__, e)
+            g1.close()
+            del it, g1
+            r3 = list(p(mk(2, 3)))
+            seen["third"] = r3
+            out.calls.append({"call": 0, "result": seen["got"], "exc": None})
+        cfg = _cfg(H.PARAMS, [dict(n_tasks=6), dict(n_tasks=3), dict(n_tasks=3)])
+        cfg["hooks"] = {"script": script}
+        pre = [(p0, 0)] if p0 >= 0 else []
+        o = parlib.run(cfg, dict(preempt=pre, picks=[pkv]))
+        probs = _common(o)
+        want = [(0, i) for i in range(pl)]
+        if "got" not in seen:
+            probs.append("first run did not start")
+        elif (seen["got"] != want) if ordered else (len(set(seen["got"])) != pl):
+            probs.append("pulled %r" % (seen["got"],))
+        if seen.get("second") != "RuntimeError":
+            probs.append("call after leaving the with block, generator still alive: %s (results %r, old generator then gave %r)" % (
+                seen.get("second"), seen.get("second_results"), seen.get("rest")))
+        third = seen.get("third")
+        if third is None or (third if ordered else sorted(third)) != [(2, i) for i in range(3)]:
+            probs.append("after closing the old generator the next call returned %r" % (third,))
+        for m in probs:
+            H.note("pulls=%d preempt=%r: %s" % (pl, pre, m))
+        return H.verdict(not probs)
+
+
 def ob_unordered(n_tasks: int, pos0: int, pk: int) -> bool:
     """
     pre: 0 <= n_tasks <= 2
@@ -202,6 +264,10 @@ def obligations(tier, seed):
                                 "timeout": 900,
                                 "bounds": "6 tasks, pulls in %s, then %s; overlapping call attempted; one pre-emption anywhere, "
                                           "2 picks; then a 3-task call" % ([0, 1, 3, 6], ["close()", "drop", "keep consuming to the end"][en])})
+        obs.append({"name": "leave_with/%s" % be, "fn": "ob_leave_with", "mode": "S",
+                    "params": {"backend": be, "return_as": "generator"}, "timeout": 600,
+                    "bounds": "with-block left after 0/1/2/4 pulls of 6 with the generator alive; second call must raise; "
+                              "close; third call clean; one pre-emption anywhere"})
         obs.append({"name": "unordered/%s" % be, "fn": "ob_unordered", "mode": "S",
                     "params": {"backend": be, "return_as": "generator_unordered", "pre_dispatch": 3}, "timeout": 600,
                     "bounds": "1/3/5 tasks, one pre-emption anywhere, 2x2 picks"})
